@@ -12,7 +12,9 @@ file writes into the directory and whether it succeeds, what the two gcov reader
 (`parseGz` = `parse_gcov_gz`, `parseText` = `parse_gcov`; `none` = `Err`), what `parse_lcov`,
 `parse_jacoco_xml_report`, `Gcno::compute` return on a content id, and what
 `llvm_profiles_to_lcov` does (its result and the `grcov.profdata` file the merge tool writes; the
-function removes that file again before it returns).
+function removes that file again before it returns). `Consumer/Llvm.lean` builds this last
+parameter from the `LlvmTools` model and `find_binaries`' result; `Consumer/WorkDirs.lean` places
+the private directories in the run's one temporary directory.
 
 Every place of the Rust loop body that can panic is an explicit `StepResult.panic`:
   * `gcno_path.file_name().unwrap()` (a notes path without a final normal component),
